@@ -103,6 +103,9 @@ class SortedSetSpec(Spec):
                            {"op": "__init__", "exc": r[1] if len(r) > 1 else r[0], "init": init_class(vals)})
         return r[1], set(vals)
 
+    def decoy(self):
+        return SortedSet([V[0], V[-1]]), lambda x: (canon(x), list(x))
+
     # ---- menu
     def ops(self, s, model):
         ops = []
@@ -351,6 +354,9 @@ class SortedMapSpec(Spec):
                             "init": init_class([k for k, _ in pairs]),
                             "init_kind": "mapping" if kind == "dict" else "iterable-of-pairs"})
         return r[1], model
+
+    def decoy(self):
+        return SortedMap({V[0]: "x", V[-1]: "y"}), lambda x: (canon(x), list(x.keys_storage) if hasattr(x, "keys_storage") else list(x))
 
     def ops(self, m, model):
         ops = []
